@@ -11,13 +11,14 @@
    Compression codecs are parameters (compress, decompress).
    What the broker does to a produced batch before a consumer sees it (assign the base
    offset, optionally switch to LogAppendTime, set the control bit) is [stamp]. *)
-From Coq Require Import ZArith List Bool Lia String.
-From Verif Require Import Imp C09Bytes C09_Crc C09_Varint.
+From Coq Require Import ZArith List Bool Lia.
+From Verif Require Import C09Bytes C09_Crc C09_Varint.
 Import ListNotations.
 Open Scope Z_scope.
 
 (* ---- data ---------------------------------------------------------------------------- *)
 Definition obytes := option bytes.
+Definition olen (o : obytes) : Z := match o with None => 0 | Some b => blen b end.
 Definition hdr := (bytes * obytes)%type.          (* header key as its UTF-8 bytes *)
 Record record := mkRec {
   r_offset : Z; r_ts : Z; r_key : obytes; r_value : obytes; r_headers : list hdr }.
@@ -47,7 +48,7 @@ Definition enc_obytes (o : obytes) : bytes :=
 Definition enc_hdr (h : hdr) : bytes :=
   varint_enc (blen (fst h)) ++ fst h ++ enc_obytes (snd h).
 Definition enc_headers (hs : list hdr) : bytes :=
-  varint_enc (blen hs) ++ concat (map enc_hdr hs).
+  varint_enc (Z.of_nat (List.length hs)) ++ concat (map enc_hdr hs).
 
 (* attributes byte, timestamp delta, offset delta, key, value, headers *)
 Definition enc_body (ts_delta offset : Z) (r : record) : bytes :=
@@ -64,7 +65,7 @@ Definition size_hdr (h : hdr) : Z :=
   varint_size (blen (fst h)) + blen (fst h) + size_obytes (snd h).
 Definition size_of_kvh (r : record) : Z :=
   size_obytes (r_key r) + size_obytes (r_value r)
-  + varint_size (blen (r_headers r)) + fold_right (fun h a => size_hdr h + a) 0 (r_headers r).
+  + varint_size (Z.of_nat (List.length (r_headers r))) + fold_right (fun h a => size_hdr h + a) 0 (r_headers r).
 Definition size_of_body (ts_delta offset : Z) (r : record) : Z :=
   1 + varint_size offset + varint_size ts_delta + size_of_kvh r.
 
@@ -289,13 +290,15 @@ End Codec.
 Record stampcfg := mkStamp { s_base : Z; s_epoch : Z; s_lat : option Z; s_control : bool }.
 
 Definition stamp (s : stampcfg) (l : bytes) : bytes :=
-  let magic := signed_be (slice 16 17 l) in
-  let attrs := signed_be (slice 21 23 l) in
-  let attrs := Z.lor attrs (match s_lat s with Some _ => TS_TYPE_MASK | None => 0 end) in
-  let attrs := Z.lor attrs (if s_control s then CONTROL_MASK else 0) in
-  let mx := match s_lat s with Some t => t | None => signed_be (slice 35 43 l) end in
-  let region := be 2 attrs ++ slice 23 35 l ++ be 8 mx ++ skipn 43 l in
-  assemble (s_base s) (s_epoch s) magic region.
+  match read_header l with
+  | None => l
+  | Some (h, payload) =>
+      let attrs := Z.lor (h_attrs h) (match s_lat s with Some _ => TS_TYPE_MASK | None => 0 end) in
+      let attrs := Z.lor attrs (if s_control s then CONTROL_MASK else 0) in
+      let mx := match s_lat s with Some t => t | None => h_max h end in
+      assemble (s_base s) (s_epoch s) (h_magic h)
+        (crc_region attrs (h_last h) (h_first h) mx (h_pid h) (h_pepoch h) (h_bseq h) (h_num h) payload)
+  end.
 
 (* identity "codec" used when no compression is involved *)
 Definition no_compress (c : Z) (b : bytes) : bytes := b.
